@@ -18,7 +18,13 @@ for f in out:
         f["line"] = "fixed: property=%s %s %s" % (f.get("property"), f.get("commit", "?"), what)
     else:
         f["line"] = "KNOWN-FINDING: property=%s %s" % (f.get("property"), what)
+listed = [f for f in out if not str(f.get("property", "")).startswith("X")]
+ext = [f for f in out if str(f.get("property", "")).startswith("X")]
+out = listed
 json.dump({"format": "one entry per finding; status 'known' = genuine defect recorded and suppressed by its sig (printed as KNOWN-FINDING by the check), "
                      "status 'fixed' = repaired by the named fix: commit in /repo (suppresses nothing); 'line' is the entry in the one-line form",
-           "findings": out}, open(os.path.join(root, "known_findings.json"), "w"), indent=1)
+           "findings": out,
+           "extension_findings_note": "defects found and repaired by the extension models X1/X2 (DESIGN 11.7), which lie outside the 20 listed properties; "
+                                      "all fixed, none suppresses anything",
+           "extension_findings": ext}, open(os.path.join(root, "known_findings.json"), "w"), indent=1)
 print(len(out), "findings")
